@@ -7,6 +7,27 @@ sys.path.insert(0, HERE)
 
 CLAIMS = {
 
+    'C04': ('proof',
+            'Round-trip lemmas over the REAL lowered bodies of Codec<Arg>::compute_encoded_size / encode / decode_arg (if-constexpr arms selected by g++ itself against the real header) at uint32_t, double, bool, an enum, void const*: bytes reserved == written == consumed and the decoded value equals the argument, for every value (loop-free: complete). C string, char[8] and std::string arms: same lemma as BOUNDED stand-ins (length <= 16, every content, nullptr / unterminated array / embedded NUL included). InlinedVector (size cache) push_back below inline capacity / operator[] / clear by contract; LoggerImpl::_encode_header layout; log_statement proves the developers\' own NDEBUG-disabled size assertions for all instantiations; _populate_formatted_log_message clears the reused buffer. sanitize_non_printable_chars: exhaustive native enumeration (bounded).',
+            'fmt is trusted (both sides call the same fmt with the same format string). Not covered: container/optional/pair/tuple/chrono/path codecs in include/quill/std, DeferredFormatCodec/DirectFormatCodec, StringRef, the variadic pack expansion (argument evaluation order), InlinedVector growth beyond 12 entries. Bounded units are reported separately and not counted as discharged proof obligations.',
+            'CBMC contracts/round-trip lemmas on extracted real code; bounded stand-ins (unwinding with assertions, native exhaustive enumeration)', '§3 C04'),
+    'C12': ('other',
+            'Mostly BOUNDED stand-ins, stated as such: (b) exhaustive native enumeration of the real PatternFormatter constructor over all token sequences of <= 3 tokens (attributes each once, specs, literals, malformed) against the specification substitution; (b) MacroMetadata file_name/full_path/line/short_source_location over all source-location strings of length <= 8 over 5 symbols. By contract (unbounded): _process_multi_line_message emits contiguous, ordered, newline-free lines covering the message with at most one trailing newline dropped (loop contract).',
+            'Not covered: PatternFormatter::format attribute fill, _apply_runtime_metadata, the single-line arm of _dispatch_transit_event_to_sinks, fmt itself. Known finding pattern-literal-brace (literal { } in a pattern reach fmt unescaped) is reported as KNOWN-FINDING. Bounded results are complete only for their stated finite space.',
+            'exhaustive native enumeration of the real functions (bounded) + one CBMC loop-contract unit', '§3 C12'),
+    'C14': ('proof',
+            'Arithmetic and decision logic of size rotation by contract on the real RotatingSink code: write_log writes each statement whole exactly once after the rotation decisions and accounts its size; _size_rotation attempts a rotation exactly when appending would exceed the limit, after which the statement fits unless it alone exceeds the limit or the rotation was refused.',
+            'Not covered: _rotate_files (file renaming chain, backup count, deletion), _clean_and_recover_files (restart/append), naming schemes, libc/std::filesystem. _rotate_files is assumed by the contract "rotated (size 0) or refused (unchanged)".',
+            'CBMC code contracts on extracted real code', '§3 C14'),
+    'C15': ('proof',
+            '_time_rotation by contract: rotate before the write iff timestamp >= scheduled point; next point > timestamp and <= timestamp + period; Daily: the next point is the previous one plus a whole number of days (schedule anchored, from the property statement - the pinned tree failed this and was repaired). _calculate_rotation_tp: period = interval minutes / hours / 24 h. write_log: rotation before the write.',
+            'Bounds stated in the evidence: gap between statement and scheduled point < 8 periods and interval <= 16 (quick) / 64 (thorough) because of 64-bit division by a symbolic period; _calculate_initial_rotation_tp (gmtime/timegm/mktime calendar arithmetic), local time zones and DST, file naming are not covered.',
+            'CBMC code contracts on extracted real code (std::chrono as 64-bit integers)', '§3 C15'),
+    'C19': ('other',
+            'BOUNDED stand-ins: exhaustive native enumeration of the real _process_named_args_format_message against a scanner written from fmt\'s grammar over every valid template of length <= 8 over 7 symbols, and of MacroMetadata::_contains_named_args (all-named templates are detected).',
+            'Not covered: _populate_formatted_named_args / _format_and_split_arguments (pair count/order), JsonSink, the template cache. Known finding named-field-then-escaped-brace is reported as KNOWN-FINDING. Observation (not claimed): _contains_named_args skips one character after each placeholder, so "{}{a}" is not detected and "{}{{a" is.',
+            'exhaustive native enumeration of the real functions (bounded)', '§3 C19'),
+
     'C03': ('proof',
             'The per-thread pipeline is decomposed into stages, each with a contract proved on the real (lowered) code for all states: queue read loop (_read_and_decode_frontend_queue, both instantiations, loop contract: a record is consumed iff decoded, pushed once), decode/admit (_populate_transit_event_from_frontend_queue skeleton), TransitEventBuffer (every method against a sequence view, growth preserves order), selection and processing (_process_lowest_timestamp_transit_event: exactly one pop of the selected buffer after the dispatch on every path incl. exceptions; false only if all buffers empty), per-sink write (_write_log_statement: once per accepting sink), reclaim predicate (only drained contexts of exited threads), registry removal.',
             'Composition of the stage contracts into "once each, in thread order" is a paper argument over shared ghost counters (no lemma unit yet); liveness (every statement is eventually processed) is not claimed; registration hand-off race (new_thread_context_flag) not covered; queues/buffers are abstracted in the BackendWorker skeletons by the views their own units prove; context/sink lists are abstracted to {tracked, representative}.',
